@@ -288,11 +288,19 @@ def C04_fromAST_total_full : Prop :=
 theorem C04_fromAST_total_partial (S : Schemas) (h : Cog.Builder.Safe S = true) :
     ∃ bs, Cog.Builder.fromAST S = .ok bs := Cog.Builder.fromAST_ok_of_safe S h
 
+/-- refuted by an alias cycle: the model's `err "diverge"` is a Go stack overflow in `ResolveToType`
+    (a DANGLING alias was a second counterexample until fix eed3e31 of /repo, see
+    `C04_fromAST_dangling_panicked_before_fix`) -/
 theorem C04_fromAST_total_counterexample : ¬ C04_fromAST_total_full := by
   intro h
-  obtain ⟨bs, hbs⟩ := h Cog.Builder.danglingWitness (by decide +kernel)
-  have : isPanic (Cog.Builder.fromAST Cog.Builder.danglingWitness) = true := by decide +kernel
+  obtain ⟨bs, hbs⟩ := h aliasSelfWitness (by decide +kernel)
+  have : (match Cog.Builder.fromAST aliasSelfWitness with | .ok _ => false | _ => true) = true := by decide +kernel
   simp [hbs] at this
+
+theorem C04_fromAST_dangling_panicked_before_fix :
+    isPanic (Cog.Builder.fromASTPreFix Cog.Builder.danglingWitness) = true ∧
+    isPanic (Cog.Builder.fromAST Cog.Builder.danglingWitness) = false := by
+  constructor <;> decide +kernel
 
 /-- and an alias cycle makes it diverge (Go: stack overflow in `ResolveToType`) -/
 theorem C04_fromAST_diverges_on_alias_cycle :
